@@ -602,7 +602,12 @@ def extra_checks(ctx, cases_, impl_lines, model_lines_):
         if (t != want - off or t <= now) and bad is None:
             bad = (i, want - off, t)
     if bad is None:
-        return []
+        # the trigger inside a rolling appender: C05's histories under the REAL TimeTrigger and the hook clock
+        # (appends before / at / after boundaries, restarts, bursts, a roller that fails at a boundary): the
+        # rotation precedes the firing record, one rotation per boundary, a failed one is not repeated
+        from gen import xcheck
+        return xcheck.borrow(ctx, "C05", "the time trigger driving a rolling appender",
+                             lambda c: isinstance(c[0], list) and c[0] and c[0][0] == 3, n=200)
     i, want, got = bad
     name = _name(cases_[i])
     return [("get_next_time differs from the property's boundary (python datetime oracle; the zone offset is "
